@@ -86,7 +86,7 @@ class Parser(BaseParser):
                     delayed_matches[m.end()].extend([(item, i, None) for item in to_scan ])
 
                     # If we're ignoring up to the end of the file, # carry over the start symbol if it already completed.
-                    delayed_matches[m.end()].extend([(item, i, None) for item in columns[i] if item.is_complete and item.s == start_symbol])
+                    delayed_matches[m.end()].extend([(item, i, None) for item in columns[i] if item.is_complete and item.s == start_symbol and item.start == 0])
 
             next_to_scan = self.Set()
             next_set = self.Set()
